@@ -353,14 +353,22 @@ def run(ctx):
         stress_run(ctx, binr)
     cj = conc_part(ctx, quick) or []
     nt = [j for j in jsons if L.seq_nontrivial(j)]
+    cnt = [j for j in cj if len(j["sched"]) > 2 * sum(len(p) for p in j["progs"])]
     ctx.cov.update({
         "evaluations": len(jsons) + len(cj),
-        "distinct_nontrivial": vlib.distinct_count([[j["glob"], j["ops"]] for j in nt]),
+        "distinct_nontrivial": vlib.distinct_count([[j["glob"], j["ops"]] for j in nt]) +
+        vlib.distinct_count([[j["init"], j["progs"], j["sched"]] for j in cnt]),
+        "distinct_nontrivial_seq": vlib.distinct_count([[j["glob"], j["ops"]] for j in nt]),
+        "distinct_nontrivial_conc": vlib.distinct_count([[j["init"], j["progs"], j["sched"]] for j in cnt]),
         "rule": "sequential cases = operation sequences (<=25 ops: InitLogger/ChildLogger/WithFields/SetLevel/"
                 "EnableDebug/derived contexts, 0-3 fields per call with repeating names, levels Debug..Error, "
                 "global level Debug..Error, occasionally a wrapped global) with every context probed at every "
                 "level before the first and after every operation; non-trivial = some WithFields/ChildLogger with "
-                "at least one field is applied after a level was set; distinct by (global, ops)",
+                "at least one field is applied after a level was set; distinct by (global, ops). Concurrent "
+                "cases = 2-4 goroutines x 1-3 WithFields/SetLevel on contexts sharing a holder, replayed under a "
+                "generated schedule with the shared logger probed after every step; non-trivial = the schedule is "
+                "longer than two steps per operation, i.e. some CompareAndSwap failed or a returned goroutine was "
+                "scheduled; distinct by (initial logger, programs, schedule)",
         "exhaustive": False,
         "samples": [L.view(j) for j in jsons[:2] + jsons[8:9]],
     })
